@@ -758,3 +758,18 @@ pub(crate) fn seed_spurious_false_traversed(path: &mut Path) {
     path.branches.insert(Spurious { spur: false, exploring: true });
     path.pos = 1;
 }
+
+/// Pre-loads the path with one scheduling decision (to be replayed) that hands
+/// the processor to thread `to`: the operation that reaches this scheduling
+/// point is pre-empted there.
+pub(crate) fn seed_preempt(path: &mut Path, to: usize, n_threads: usize) {
+    let mut threads = [Thread::Disabled; MAX_THREADS];
+    let mut k = 0;
+    while k < n_threads {
+        threads[k] = if k == to { Thread::Active } else { Thread::Visited };
+        k += 1;
+    }
+    let ex = path.exploring;
+    path.branches.insert(Schedule { preemptions: 0, initial_active: None, threads, prev: None, exploring: ex });
+    path.pos = 0;
+}
